@@ -1547,6 +1547,69 @@ fn twin_c12() -> R {
             }
         }
     }
+    // "state-advancing calls made afterwards do not panic either": well-formed but unexpected heads (interim statuses that
+    // nobody awaited, a second 100, bodiless statuses with framing headers, redirects without Location), whole and cut at
+    // every position, then every readiness query followed by the advance it promises, into the body and out of it
+    let heads2: Vec<&[u8]> = vec![
+        b"HTTP/1.1 100 Continue\r\n\r\n", b"HTTP/1.1 100 Continue\r\n\r\nHTTP/1.1 100 Continue\r\n\r\n", b"HTTP/1.0 100 \r\n\r\n",
+        b"HTTP/1.1 100 Continue\r\nx: y\r\n\r\n", b"HTTP/1.1 101 Switching\r\n\r\n", b"HTTP/1.1 102 P\r\ncontent-length: 3\r\n\r\nabc",
+        b"HTTP/1.1 199 X\r\ntransfer-encoding: chunked\r\n\r\n3\r\nabc\r\n0\r\n\r\n", b"HTTP/1.1 204 N\r\ncontent-length: 3\r\n\r\nabc",
+        b"HTTP/1.1 304 N\r\ntransfer-encoding: chunked\r\n\r\nzz", b"HTTP/1.1 302 F\r\n\r\n", b"HTTP/1.1 302 F\r\nlocation: \xff\r\ncontent-length: 0\r\n\r\n",
+        b"HTTP/1.1 200 OK\r\ncontent-length: 0\r\n\r\n", b"HTTP/1.1 200 OK\r\n\r\nrest", b"HTTP/1.1 999 Z\r\ncontent-length: 18446744073709551615\r\n\r\nab",
+    ];
+    for h in &heads2 {
+        for kind in 0..3 {
+            for cut in 0..=h.len() {
+                n += 1;
+                let pre = &h[..cut];
+                let r = std::panic::catch_unwind(|| {
+                    // kind 0: GET, nothing awaited; 1: PUT + Expect, gave up waiting, body sent; 2: PUT + Expect, the 100 was consumed first
+                    let mut f = if kind == 0 {
+                        to_recv_response(get_req()).unwrap()
+                    } else {
+                        let req = Request::put("http://a.test/x").header("expect", "100-continue").header("content-length", "0").body(()).unwrap();
+                        let mut fl = Flow::new(req).unwrap().proceed();
+                        let mut out = vec![0u8; 256];
+                        fl.write(&mut out).unwrap();
+                        let mut a = match fl.proceed() { Ok(Some(SendRequestResult::Await100(a))) => a, _ => return };
+                        if kind == 2 { let _ = a.try_read_100(b"HTTP/1.1 100 Continue\r\n\r\n"); }
+                        match a.proceed() {
+                            Ok(Await100Result::SendBody(mut sb)) => {
+                                let _ = sb.write(&[], &mut out);
+                                if !sb.can_proceed() { return; }
+                                match sb.proceed() { Some(f) => f, None => panic!("SendBody::can_proceed() but proceed() is None") }
+                            }
+                            Ok(Await100Result::RecvResponse(f)) => f,
+                            Err(_) => return,
+                        }
+                    };
+                    let mut off = 0;
+                    for _ in 0..3 {
+                        match f.try_response(&pre[off..]) { Ok((c, _)) => { assert!(c <= pre.len() - off, "counts"); off += c; if c == 0 { break; } } Err(_) => break }
+                        if f.can_proceed() { break; }
+                    }
+                    if !f.can_proceed() { return; }
+                    let next = match f.proceed() { Some(x) => x, None => panic!("RecvResponse::can_proceed() but proceed() is None") };
+                    match next {
+                        RecvResponseResult::RecvBody(mut b) => {
+                            let mut out = [0u8; 2];
+                            for _ in 0..12 {
+                                match b.read(&pre[off..], &mut out) { Ok((ci, co)) => { assert!(ci <= pre.len() - off && co <= 2, "counts"); off += ci; if ci == 0 && co == 0 { break; } } Err(_) => break }
+                            }
+                            if b.can_proceed() {
+                                match b.proceed() { Some(RecvBodyResult::Redirect(mut rd)) => { let _ = rd.as_new_flow(RedirectAuthHeaders::Never); let _ = rd.proceed(); } Some(RecvBodyResult::Cleanup(c)) => { let _ = c.must_close_connection(); } None => panic!("RecvBody::can_proceed() but proceed() is None") }
+                            }
+                        }
+                        RecvResponseResult::Redirect(mut rd) => { let _ = rd.as_new_flow(RedirectAuthHeaders::SameHost); let _ = rd.proceed(); }
+                        RecvResponseResult::Cleanup(c) => { let _ = c.must_close_connection(); }
+                    }
+                });
+                if r.is_err() {
+                    return Err(format!("panic in a state-advancing call after server bytes {:?} (request kind {})", String::from_utf8_lossy(pre), kind));
+                }
+            }
+        }
+    }
     Ok((n, n))
 }
 
